@@ -72,6 +72,25 @@ pub fn shadow_zoo(ctx: &Ctx, rng: &mut impl RngCore, nrand: usize) -> Vec<SE> {
             s.class = "rescaled";
         }
         out.push(s);
+        // engineered rescaling: lambda chosen so that X (or T, Y) of the presentation is a value
+        // whose Montgomery form has an all-ones / zero limb (borrow and carry paths of the backends)
+        if i % 3 == 0 && m.pt.x != b(0) && m.pt.y != b(0) {
+            let targets = zoo::montgomery_limb_values(&c.f, rng, 1);
+            let t = &targets[(i / 3) % targets.len()];
+            let coord = match (i / 3) % 3 {
+                0 => m.pt.x.clone(),
+                1 => c.f.mul(&m.pt.x, &m.pt.y),
+                _ => m.pt.y.clone(),
+            };
+            if let Some(ci) = c.f.inv(&coord) {
+                let l = c.f.mul(t, &ci);
+                if l != b(0) {
+                    let mut s = present(c, m, Some(&l));
+                    s.class = "rescaled-montgomery-limb-pattern";
+                    out.push(s);
+                }
+            }
+        }
         let other = MEl { pt: c.torque(&m.pt), class: "other-rep" };
         out.push(present(c, &other, if i % 2 == 0 { None } else { Some(&lam[(i + 1) % lam.len()]) }));
     }
